@@ -17,7 +17,7 @@ var defaultBox = gen.FromBound(orb.Bound{Min: orb.Point{-2, -2}, Max: orb.Point{
 func coordGen(world string) *rapid.Generator[float64] {
 	switch world {
 	case "grid":
-		return gen.Mix(gen.SmallInt(6), gen.SmallInt(6), gen.Half(6))
+		return gen.Mix(gen.SmallInt(6), gen.SmallInt(6), gen.SmallInt(6), gen.Half(6), gen.Half(6), rapid.SampledFrom([]float64{0, math.Copysign(0, -1)}))
 	case "lonlat":
 		// quantised to 2^-20 so that no coordinate sits in underflow territory
 		raw := gen.Mix(gen.SmallInt(170), rapid.Float64Range(-180, 180), rapid.Float64Range(-10, 10), rapid.Float64Range(-90, 90))
@@ -281,10 +281,17 @@ func genGeometry(t *rapid.T, world string) (orb.Geometry, string) {
 
 // perturb returns a copy of g that differs in one coordinate (when g has a slice-held coordinate).
 func perturb(t *rapid.T, g orb.Geometry) orb.Geometry {
+	ulp := rapid.Bool().Draw(t, "ulp")
 	switch v := g.(type) {
 	case orb.Point:
+		if ulp {
+			return orb.Point{math.Nextafter(v[0], math.Inf(1)), v[1]}
+		}
 		return orb.Point{v[0] + 1, v[1]}
 	case orb.Bound:
+		if ulp {
+			return orb.Bound{Min: v.Min, Max: orb.Point{v.Max[0], math.Nextafter(v.Max[1], math.Inf(-1))}}
+		}
 		return orb.Bound{Min: v.Min, Max: orb.Point{v.Max[0], v.Max[1] + 1}}
 	}
 	out := deepCopy(g)
@@ -298,6 +305,9 @@ func perturb(t *rapid.T, g orb.Geometry) orb.Geometry {
 	gen.Walk(out, func(p *float64) {
 		if i == k {
 			nv := *p + 1
+			if ulp {
+				nv = math.Nextafter(*p, math.Inf(1)) // the smallest possible difference
+			}
 			if nv == *p {
 				nv = *p / 2
 			}
